@@ -62,6 +62,7 @@ def L_rank(s: StrA, L: TList(INT), x: INT, r: INT):
 # ------------------------------------------------------------------ contracts
 @contract("sqlfluff.core.templaters.base:iter_indices_of_newlines", PROP)
 class iter_indices_of_newlines:
+    opts = {"alphabet": "a\n \r\x0c\x0b\u2028\x85", "max_len": 6}
     types = {"raw_str": StrA, "nl_pos": INT, "init_idx": INT}
     ghost_yield = INT
     ret = TList(INT)
@@ -82,6 +83,7 @@ from .types import TemplatedFile  # noqa: E402
 
 @contract("sqlfluff.core.templaters.base:TemplatedFile.get_line_pos_of_char_pos", PROP)
 class get_line_pos_of_char_pos:
+    opts = {"alphabet": "a\n \r\x0c\x0b\u2028\x85", "max_len": 6}
     types = {"self": TemplatedFile, "char_pos": INT, "source": BOOL}
     ret = TTuple(INT, INT)
 
@@ -116,6 +118,7 @@ class str_split_nl:
 
 @contract("sqlfluff.core.parser.markers:PositionMarker.infer_next_position", PROP)
 class infer_next_position:
+    opts = {"alphabet": "a\n \r\x0c\x0b\u2028\x85", "max_len": 6}
     types = {"raw": StrA, "line_no": INT, "line_pos": INT}
     ret = TTuple(INT, INT)
 
@@ -135,3 +138,8 @@ MUTANTS = [
     ("infer_last_line", "sqlfluff/core/parser/markers.py", "line_pos + len(raw) if len(split) == 1 else len(split[-1]) + 1", "line_pos + len(raw) if len(split) == 1 else len(split[-1])"),
     ("infer_line_count", "sqlfluff/core/parser/markers.py", "line_no + len(split) - 1,", "line_no + len(split),"),
 ]
+
+
+# the class invariant that get_line_pos_of_char_pos requires is established by TemplatedFile.__init__ (contract in c07.py,
+# registered for C31 as well): "this holds for both the source and the rendered text"
+from . import c07 as _c07  # noqa: E402,F401
